@@ -107,7 +107,7 @@ impl Broker {
     //@include _shared/statistics_specs.rs
     //@include _shared/chan_inv.rs
     //@include _shared/bl_inv.rs
-    //@include _shared/remove_channel_end_contract.rs
+    //@fn-from broker_handlers_channel broker/src/broker.rs Broker::remove_channel_end
 
     // ---- the initial state satisfies every invariant (base case of the induction over histories) ------------------------
     //@fn broker/src/broker.rs Broker::new vis=crate
